@@ -12,7 +12,8 @@ MANIFEST = dict(
 
 def gen(rng, facts):
     ns = rng.randint(1, 3)
-    sinks = [(rng.choice([0, 0, 4]), sorted(set(rng.sample(range(0, 14), rng.choice([0, 1, 2, 3]))))) for _ in range(ns)]
+    sinks = [(rng.choice([0, 0, 4]), sorted(set(rng.sample(range(0, 14), rng.choice([0, 1, 2, 3])))) + ([4095] if rng.random() < 0.25 else []))
+             for _ in range(ns)]      # 4095 in the plan: this sink's flush_sink() throws, every time
     nl = rng.randint(1, 2)
     loggers = [(0, rng.sample(range(ns), rng.randint(1, ns))) for _ in range(nl)]
     soft = rng.choice([1, 2, 4]); hard = rng.choice([h for h in (2, 4, 8) if h >= soft])
@@ -71,7 +72,7 @@ def monitor(case, obs):
             return 'statement %d written more than once to sink %d' % (dup[0], k)
     # which (sink, id) pairs may legitimately be missing: a sink throws on one of its write_log calls, and then that
     # statement is also missing from the sinks after it. We allow, per throw in the plan, one missing statement per sink.
-    throws = sum(len(th) for (_, th) in case.sinks)
+    throws = sum(len([x for x in th if x != 4095]) for (_, th) in case.sinks)
     missing = 0
     for i, d in tr.stmts.items():
         if d['outcome'] != 'accepted' or d['mode'] != 0 or d['level'] == 9: continue
@@ -88,6 +89,16 @@ def monitor(case, obs):
             want = 2 if d.get('named') else 0
             if n != want:
                 return 'sink %d received statement %d with %d named arguments, the statement has %d' % (k, i, n, want)
+    # a sink whose flush throws disturbs nothing else: when a flush_log() has returned, every other sink in use was
+    # flushed between the call and its return
+    used = sorted(set(k for (_, ks) in case.loggers for k in ks))
+    for i, f in tr.flushes.items():
+        if f.get('ret') is None: continue
+        for k in used:
+            if 4095 in case.sinks[k][1]: continue
+            if not any(f['start'] < sf < f['ret'] for (sf, kk) in tr.sflush if kk == k):
+                return 'flush_log() %d returned but sink %d was not flushed (the flush of another sink throws: %s)' % (
+                    i, k, [j for j in used if 4095 in case.sinks[j][1]])
     # per-thread order among ordinary statements
     for k, ids in seen.items():
         last = {}
